@@ -31,15 +31,16 @@ Record cfg := {
   keep_box_on_remove : bool;        (* Remove deletes objects[i] but leaves boxes[i] *)
   zero_index_untested : bool;       (* objects[1] absent: index 0 is taken without a collision test *)
   nil_slot_on_failed_activate : bool; (* Activate failed: objects[i] = nil stays in the map, with the pending mailbox *)
-  remove_pending_slot : bool        (* Remove(i) succeeds on the pendingObject of an Add in progress *)
+  remove_pending_slot : bool;       (* Remove(i) succeeds on the pendingObject of an Add in progress *)
+  terminate_by_index : bool         (* an object's terminate action removes whatever lives under its index now *)
 }.
 Definition cfg_clean : cfg := {| keep_box_on_remove := false; zero_index_untested := false;
-  nil_slot_on_failed_activate := false; remove_pending_slot := false |}.
+  nil_slot_on_failed_activate := false; remove_pending_slot := false; terminate_by_index := false |}.
 Definition cfg_pinned : cfg := {| keep_box_on_remove := true; zero_index_untested := true;
-  nil_slot_on_failed_activate := true; remove_pending_slot := true |}.
+  nil_slot_on_failed_activate := true; remove_pending_slot := true; terminate_by_index := true |}.
 Definition clean (c : cfg) : Prop :=
   keep_box_on_remove c = false /\ zero_index_untested c = false /\
-  nil_slot_on_failed_activate c = false /\ remove_pending_slot c = false.
+  nil_slot_on_failed_activate c = false /\ remove_pending_slot c = false /\ terminate_by_index c = false.
 
 Inductive slot := SPending | SNil | SObj (k : nat).          (* a value of serviceImpl.objects *)
 Inductive target := TPending | TObj (k : nat).               (* whom a mailbox goroutine serves *)
@@ -202,6 +203,15 @@ Definition do_remove (c : cfg) (s : state) (i : N) : state * list out * rm_resul
           actors := updA (actors s) k a'; crashed := false |}, fr, RmDone)
   end.
 
+(* what an object's terminate action does: objectTerminator calls Service.Remove(own index) — which
+   removes whoever lives there now; with the switch off only the object itself is removed *)
+Definition do_remove_self (c : cfg) (s : state) (k : nat) (i : N) : state * list out * rm_result :=
+  if terminate_by_index c then do_remove c s i
+  else match objects s i with
+       | Some (SObj k') => if Nat.eqb k' k then do_remove c s i else (s, [], RmMissing)
+       | _ => (s, [], RmMissing)
+       end.
+
 Definition remove (c : cfg) (s : state) (i : N) : option (state * list out) :=
   match do_remove c s i with
   | (s', fr, RmMissing) => Some (s', fr ++ [ORet false])
@@ -255,7 +265,7 @@ Definition deliver (c : cfg) (s : state) (k : nat) : option (state * list out) :
       | ATerminate arg =>
           if wrong_id a arg then Some (s1, answer cn f (TError EWrongID))
           else
-            match do_remove c s1 (obj_id a) with
+            match do_remove_self c s1 k (obj_id a) with
             | (s2, fr, RmPanic) => Some (s2, fr ++ [OPanic])
             | (s2, fr, _) => Some (s2, fr ++ answer cn f TReply)     (* Remove's error is dropped *)
             end
